@@ -187,7 +187,7 @@ func nodeWithCaseConversion(n *RegexNode) *RegexNode {
 
 	if n.Ch > 0 {
 		ch := n.Ch
-		if isLow, isUp := unicode.IsLower(ch), unicode.IsUpper(ch); isLow || isUp {
+		if unicode.SimpleFold(ch) != ch {
 			/*var upper, lower rune
 			// it's a capitalizable char
 			if isUp {
